@@ -6,6 +6,11 @@ HERE = os.path.dirname(os.path.dirname(os.path.abspath(__file__)))
 
 # id -> (category, technique, level text, level note, design ref)
 CHECKS = {
+ "C12": ("exploration",
+         "property-based testing against a reference C macro expander (hide sets) + metamorphic relations (include pasting, define placement)",
+         "Random macro programs (1-6 object- and function-like macros with 0-3 parameters, self- and mutually-referential bodies, ## pastes, nested invocations in arguments, parenthesised commas, invocations spanning lines, redefinitions and #undef between sites) are preprocessed and the resulting token sequence is compared with a reference expander implementing C's rescanning rules with hide sets; include graphs of 2-5 files with and without #pragma once must equal the text with the includes pasted in place; every split of 1-4 defines between API defines and #define lines must give the same tokens. 60 000 cases quick, 1.4 M thorough.",
+         "Trusted: the reference expander in harness/src/c12.rs. Function-like macro names always carry a complete argument list (bare names next to parentheses are where the recorded deviation KF-C12-1 lives); inputs whose expansion explodes under KF-C12-1 are predicted with a model of the deviation and excluded (counted).",
+         "DESIGN.md section 3, C12"),
  "C09": ("exploration",
          "exhaustive enumeration (depth-2 operator pairs) + property-based testing: print/parse round-trip",
          "Syntax trees are produced by parsing explicitly grouped text, so every tree shape over the operator set is reachable: all 3 300 (outer, inner, side) operator combinations at depth 2 exhaustively, random expression trees to depth 6 over every unary/binary/ternary/postfix/call/template-call/cast/subscript/member/sizeof/constructor node and 37 literal spellings in 6 syntactic positions, whole generated programs, the repository's inputs, and the exporters' own output. Each tree is printed for HLSL and for MSL, parsed again and compared with the original after removing locations. 38 000 trees quick, 1.1 M thorough.",
